@@ -6,7 +6,7 @@
 From Coq Require Import NArith ZArith List String Bool Lia.
 From V Require Import Base.UString Base.Json Model.SchemaTypes Model.PyBase Model.Schema
      Spec.StixValid Spec.SchemaRefine Proofs.SchemaBasics Proofs.SchemaValidMono Proofs.SchemaScope
-     Proofs.SchemaObject Proofs.SchemaProved Proofs.SchemaConstr Proofs.SchemaCovProved Proofs.SchemaCovInv.
+     Proofs.SchemaObject Proofs.SchemaProved Proofs.SchemaConstr Proofs.SchemaCovProved Proofs.SchemaCovInv Proofs.SchemaCovInv2.
 Import ListNotations.
 
 Local Arguments u : simpl never.
@@ -31,6 +31,17 @@ Qed.
 
 Lemma truthy_safe_refines k k' : truthy_safe k = true -> kind_refines k k' = true -> truthy_safe k' = true.
 Proof. destruct k; destruct k'; simpl; auto; discriminate. Qed.
+
+Lemma stringy_refines k k' : is_stringy k = true -> kind_refines k k' = true -> is_stringy k' = true.
+Proof. destruct k; destruct k'; simpl; auto; discriminate. Qed.
+
+Lemma stringy_valid_inv sp pok m k j : is_stringy k = true -> valid_kind sp pok m k j = true -> exists s, j = JStr s.
+Proof.
+  destruct m; [discriminate|]. destruct k; try discriminate; intros _; simpl; destruct j; try discriminate; eauto.
+Qed.
+
+Lemma assoc_alookup k (m : list (ustring * ustring)) : assoc k m = alookup k m.
+Proof. induction m as [|[k' v] m IH]; simpl; auto. Qed.
 
 (* ---------- a constraint reads only the properties it names ---------- *)
 Lemma alookup_aset_notin {A} (key p : ustring) (v : A) st (names : list ustring) :
@@ -131,7 +142,9 @@ Section CovCons.
       exists s', find_slot sc (sname s) = Some s' /\ kind_refines (skind s) (skind s') = true.
   Variable setting : list (ustring * pval).
   Hypothesis HInv : Inv sp pok sc setting.
-  Hypothesis HT : Itime c setting.
+  Hypothesis HM : Imodel c setting.
+
+  Let HT : Itime c setting := proj1 HM.
 
   Notation mem := (members c setting).
 
@@ -139,15 +152,17 @@ Section CovCons.
   Proof. intros s Hs. destruct (Hslots s Hs) as [s' [A _]]. eauto. Qed.
 
   Lemma truthy_members p x :
-    match find_slot c p with Some s => truthy_safe (skind s) | None => false end = true ->
+    match find_slot c p with Some s => truthy_safe (skind s) || is_marking_kind (skind s) | None => false end = true ->
     alookup p setting = Some x -> ptruthy x = truthy (encode false x).
   Proof.
     intros Hc Hx. destruct (find_slot c p) as [s|] eqn:Es; try discriminate.
     destruct (find_slot_spec _ _ _ Es) as [Hs Hname].
-    destruct (Hslots s Hs) as [s' [Hf Hkr]]. rewrite Hname in Hf.
-    destruct HInv as [_ Hent]. destruct (Hent p x (alookup_In _ _ _ Hx)) as [Hn [s'' [Hf' [m Hm]]]].
-    rewrite Hf in Hf'. injection Hf' as <-.
-    apply (truthy_enc sp pok x (skind s') m Hn); [eapply truthy_safe_refines; eauto | exact Hm].
+    apply orb_true_iff in Hc. destruct Hc as [Hc | Hc].
+    - destruct (Hslots s Hs) as [s' [Hf Hkr]]. rewrite Hname in Hf.
+      destruct HInv as [_ Hent]. destruct (Hent p x (alookup_In _ _ _ Hx)) as [Hn [s'' [Hf' [m Hm]]]].
+      rewrite Hf in Hf'. injection Hf' as <-.
+      apply (truthy_enc sp pok x (skind s') m Hn); [eapply truthy_safe_refines; eauto | exact Hm].
+    - pose proof HM as (_ & _ & _ & HK). rewrite <- Hname in Hx. destruct (HK s x Hs Hc Hx) as [T _]. exact T.
   Qed.
 
   (* a timestamp property that is set: its serialized text denotes the stored instant *)
@@ -247,6 +262,70 @@ Section CovCons.
         cbn [jconstr_body]. rewrite Hjc. apply forallb_forall. auto.
       + exists 1%nat. change (jconstr_body pok (jconstr pok 0 sc mem) sc mem (CWhen c0 body) = true).
         cbn [jconstr_body]. rewrite Hjc. reflexivity.
+    - (* CTlp *)
+      exists 1%nat. change (jconstr_body pok (jconstr pok 0 sc mem) sc mem (CTlp v) = true).
+      cbn [jconstr_body]. cbn [eval_constr] in H. unfold check_tlp, jget, pget in *.
+      simpl in Hp. unfold tlp_ok in Hp.
+      destruct (find_slot c (u "definition_type")) as [s1|] eqn:Es1; try discriminate.
+      destruct (find_slot c (u "definition")) as [s2|] eqn:Es2; try discriminate.
+      apply andb_true_iff in Hp. destruct Hp as [Hstr Hmk].
+      destruct (find_slot_spec _ _ _ Es1) as [Hin1 Hname1]. destruct (find_slot_spec _ _ _ Es2) as [Hin2 Hname2].
+      pose proof HM as (_ & HP & _ & HK).
+      rewrite (lookup_members c setting (u "definition_type")) by (apply Hn; simpl; auto).
+      destruct (alookup (u "definition_type") setting) as [x|] eqn:E1; [|reflexivity].
+      assert (Hpj : is_pj x).
+      { apply (HP s1 x Hin1); [destruct (skind s1); try discriminate; reflexivity | rewrite Hname1; exact E1]. }
+      destruct Hpj as [j ->]. cbn [encode]. destruct j as [| | | |dt| |]; try reflexivity.
+      destruct (ustr_eqb dt (u "tlp")); cbn [negb] in *; [|reflexivity].
+      rewrite (lookup_members c setting (u "definition")) by (apply Hn; simpl; auto).
+      destruct (alookup (u "definition") setting) as [[| | | |k dinner dfl hc]|] eqn:E2; try discriminate H.
+      rewrite <- Hname2 in E2. destruct (HK s2 _ Hin2 Hmk E2) as [_ Hel]. specialize (Hel _ _ _ _ eq_refl).
+      rewrite encode_PObject. rewrite jlookup_alookup, alookup_map_encode. unfold kept.
+      rewrite (alookup_filter_keys (fun k => false || negb (mem_ustr k dfl))). rewrite Hel. cbn [orb negb].
+      destruct (alookup (u "tlp") dinner) as [[[| | | |color| |]| | | |]|]; try discriminate H. cbn [encode].
+      unfold tlp_table. rewrite assoc_alookup. unfold tlp_ids in H.
+      match type of H with match ?a with _ => _ end = _ => destruct a as [id|] end; [|reflexivity].
+      rewrite (lookup_members c setting (u "id")) by (apply Hn; simpl; auto).
+      rewrite (lookup_members c setting (u "created")) by (apply Hn; simpl; auto).
+      destruct (alookup (u "id") setting) as [[[| | | |i| |]| | | |]|]; try discriminate H.
+      destruct (alookup (u "created") setting) as [[|us txt| | |]|]; try discriminate H. cbn [encode].
+      destruct (ustr_eqb i id) eqn:Ei; cbn [negb] in H; try discriminate.
+      unfold tlp_created_text in H. destruct (ustr_eqb txt (u "2017-01-20T00:00:00.000Z")) eqn:Et; try discriminate.
+      simpl. rewrite Ei, Et. reflexivity.
+    - (* CPatternValidator *)
+      exists 1%nat. change (jconstr_body pok (jconstr pok 0 sc mem) sc mem (CPatternValidator v) = true).
+      cbn [jconstr_body]. cbn [eval_constr] in H. unfold jget, pget in *.
+      destruct v.
+      + (* 2.0: always *)
+        rewrite lookup_members by (apply Hn; simpl; auto).
+        destruct (alookup (u "pattern") setting) as [[[| | | |p| |]| | | |]|]; try discriminate H.
+        cbn [encode]. destruct (pok V20 p); [reflexivity|discriminate].
+      + (* 2.1: only stix patterns, by pattern_version *)
+        simpl in Hp. unfold pat21_ok in Hp.
+        destruct (find_slot c (u "pattern_type")) as [s|] eqn:Es; try discriminate.
+        apply andb_true_iff in Hp. destruct Hp as [Hreq Hstr].
+        destruct (find_slot_spec _ _ _ Es) as [Hin Hname].
+        pose proof HM as (_ & HP & HR & _).
+        pose proof (HR s Hin Hreq) as Ham. rewrite Hname in Ham. apply amem_alookup in Ham. destruct Ham as [x Ex].
+        assert (Hpj : is_pj x).
+        { apply (HP s x Hin); [destruct (skind s); try discriminate; reflexivity | rewrite Hname; exact Ex]. }
+        destruct Hpj as [j ->].
+        destruct (Hslots s Hin) as [s' [Hf Hkr]]. rewrite Hname in Hf.
+        destruct HInv as [_ Hent]. destruct (Hent _ _ (alookup_In _ _ _ Ex)) as [_ [s'' [Hf' [m Hm]]]].
+        rewrite Hf in Hf'. injection Hf' as <-. cbn [encode] in Hm.
+        destruct (stringy_valid_inv _ _ _ _ _ (stringy_refines _ _ Hstr Hkr) Hm) as [pt ->].
+        rewrite Ex in H.
+        rewrite (lookup_members c setting (u "pattern_type")) by (apply Hn; simpl; auto). rewrite Ex. cbn [encode].
+        destruct (ustr_eqb pt (u "stix")); cbn [negb] in *; [|reflexivity].
+        rewrite (lookup_members c setting (u "pattern")) by (apply Hn; simpl; auto).
+        rewrite (lookup_members c setting (u "pattern_version")) by (apply Hn; simpl; auto).
+        destruct (alookup (u "pattern") setting) as [[[| | | |p| |]| | | |]|]; try discriminate H.
+        destruct (alookup (u "pattern_version") setting) as [[[| | | |pv| |]| | | |]|]; try discriminate H.
+        cbn [encode].
+        destruct (ustr_eqb pv (u "2.1")) eqn:E21.
+        * apply ustr_eqb_eq in E21. subst pv. replace (ustr_eqb (u "2.1") (u "2.0")) with false by reflexivity.
+          destruct (pok V21 p); [reflexivity|discriminate].
+        * destruct (ustr_eqb pv (u "2.0")); [|discriminate]. destruct (pok V20 p); [reflexivity|discriminate].
     - (* CLegalHashes *)
       exists 1%nat. change (jconstr_body pok (jconstr pok 0 sc mem) sc mem (CLegalHashes names) = true).
       cbn [jconstr_body]. cbn [eval_constr] in H. unfold jget, pget in *.
